@@ -61,6 +61,20 @@ fn powf_exponents<F: Flt>() -> Vec<f64> {
     // within rounding of zero
     v.push(F::U / 4.0);
     v.push(-F::U / 4.0);
+    // exponents at every scale of distance 2^-k from the special cases 0, 1, 2, 3: a shortcut whose
+    // window is wider than "within rounding" evaluates these as the special case
+    let mut k = 6;
+    while k < F::PREC as i32 - 1 {
+        for c in [0.0f64, 1.0, 2.0, 3.0] {
+            for s in [1.0f64, -1.0] {
+                let e = F::from64(c + s * 2f64.powi(-k)).to64();
+                if e != c {
+                    v.push(e);
+                }
+            }
+        }
+        k += 6;
+    }
     v
 }
 
@@ -281,7 +295,7 @@ fn main() {
         mode: cli.mode,
         seed: cli.seed,
         start,
-        rule: "powi: every n in [-2050,2050] (quick: [-260,260]) and +-2^k, +-(2^k+-1) up to 2^30 and the i32 overflow thresholds of n(n-1), n(n-1)(n-2), four bases +-(1+-2^-j) per exponent with |n ln b| <= 24; powf: 17 exponents incl. 0,1,2,3 and both float neighbours of 1,2,3 and +-tiny x positive base grid; powd: dual exponents on the full tensor grid of both operands; mutual agreement of repeated multiplication/division (n <= 16), exp(n ln x), powi, powf, powd at the same operands; each x {2 generic non-unit part assignments, unit seeding}".into(),
+        rule: "powi: every n in [-2050,2050] (quick: [-260,260]) and +-2^k, +-(2^k+-1) up to 2^30 and the i32 overflow thresholds of n(n-1), n(n-1)(n-2), four bases +-(1+-2^-j) per exponent with |n ln b| <= 24; powf: 17 exponents incl. 0,1,2,3, both float neighbours of 1,2,3, +-tiny and c +- 2^-k (k = 6, 12, ... below the precision) around c = 0,1,2,3, x positive base grid; powd: dual exponents on the full tensor grid of both operands; mutual agreement of repeated multiplication/division (n <= 16), exp(n ln x), powi, powf, powd at the same operands; each x {2 generic non-unit part assignments, unit seeding}".into(),
         assumptions: vec![
             "powi tolerance grows with |n|: plain-float powi is repeated squaring whose relative error is up to |n| u / 2 (kappa = 128 + 4|n|)".into(),
             "powf tolerance includes the conditioning with respect to the rounded exponent: + kappa u |p| |d c_k/dp| |N|^k".into(),
